@@ -1,4 +1,5 @@
 import SupervisorModel.Lemmas.Pool
+import SupervisorModel.Lemmas.PoolReg
 import SupervisorModel.Lemmas.ListenerLedger
 import SupervisorModel.Lemmas.PoolSerial
 /-
@@ -123,6 +124,7 @@ structure J (h : Bytes → HRes) (w : W) (pi : Nat) (d : Nat → Nat) : Prop whe
   ls : LAll w
   sv : SInv w
   led : Ledger h w pi d
+  rg : RegOK w
 
 /-! ### operations that touch neither the event records nor the counters -/
 
@@ -323,7 +325,7 @@ theorem ledger_same (h : Bytes → HRes) (w w' : W) (i : Nat) (d : Nat → Nat) 
 theorem j_serialStep (h : Bytes → HRes) (w : W) (i e : Nat) (d : Nat → Nat) (ev : Ev) (hev : w.events[e]? = some ev)
     (hn : ev.serial = none) (hlast : e + 1 = w.events.length) (hj : J h w i d) : J h (serialStep e w) i d := by
   have hpools : (serialStep e w).pools = w.pools := rfl
-  refine ⟨Static.of_shapes (by rw [hpools]) hj.st, fun j p l hp hl => hj.ls j p l hp hl, ⟨?_, ?_, ?_⟩, ?_⟩
+  refine ⟨Static.of_shapes (by rw [hpools]) hj.st, fun j p l hp hl => hj.ls j p l hp hl, ⟨?_, ?_, ?_⟩, ?_, hj.rg.congr rfl⟩
   · refine chain_draw (sers w) _ w.gserial e hj.sv.g (by simp [sers, serialStep, setEv]) (by simpa [sers] using hlast)
       (by simp [sers, hev, hn]) ?_ ?_
     · show ((setEv w e _).events.map _)[e]? = _
@@ -419,7 +421,7 @@ theorem j_stamp (h : Bytes → HRes) (w : W) (i e : Nat) (d : Nat → Nat) (p : 
     split
     · cases w.pools[j]? <;> rfl
     · rfl
-  refine ⟨Static.of_shapes hshape hj.st, ?_, ⟨?_, ?_, ?_⟩, ?_⟩
+  refine ⟨Static.of_shapes hshape hj.st, ?_, ⟨?_, ?_, ?_⟩, ?_, hj.rg.congr (rview_setSerial _ i _)⟩
   · intro j q l hq hl'
     rw [stamp_pools] at hq
     split at hq
@@ -531,7 +533,7 @@ theorem LAll.of_fixed {w w' : W} (h : ∀ j : Nat, (w'.pools[j]?).map fixedPart 
 theorem j_insertEv (h : Bytes → HRes) (i e : Nat) (head : Bool) (w : W) (p : PoolSt) (hp : w.pools[i]? = some p)
     (d : Nat → Nat) (hj : J h w i (fun x => (if x = e then 1 else 0) + d x)) : J h (insertEv i e head w) i d :=
   ⟨Static.of_shapes (quiet_insertEv i e head w).shapes hj.st, LAll.of_fixed (insertEv_fixed i e head w) hj.ls,
-   (quiet_insertEv i e head w).sinv hj.sv, ledger_insertEv h i e head w p hp d hj.led⟩
+   (quiet_insertEv i e head w).sinv hj.sv, ledger_insertEv h i e head w p hp d hj.led, hj.rg.congr (rview_insertEv i e head w)⟩
 
 theorem j_accept_new (h : Bytes → HRes) (i e : Nat) (head : Bool) (w : W) (p : PoolSt) (ev : Ev) (d : Nat → Nat)
     (hp : w.pools[i]? = some p) (hev : w.events[e]? = some ev) (hl : ev.poolSerials.lookup p.name = none)
@@ -587,8 +589,8 @@ theorem j_accept_false (h : Bytes → HRes) (i e k : Nat) (w : W) (hlast : e + 1
         rw [acceptEvent_skip_id i e w (Or.inl (acc_of_accepted hj.sv i e hacc))]; exact hj
       | none =>
         have h1 := j_accept_new h i e false w p ev (fun _ => 0) hp hev hl hlast
-          ⟨hj.st, hj.ls, hj.sv, ledger_zero h w k i hj.led⟩
-        exact ⟨h1.st, h1.ls, h1.sv, ledger_zero h _ i k h1.led⟩
+          ⟨hj.st, hj.ls, hj.sv, ledger_zero h w k i hj.led, hj.rg⟩
+        exact ⟨h1.st, h1.ls, h1.sv, ledger_zero h _ i k h1.led, h1.rg⟩
 
 /-- `_acceptEvent(event, head=True)` for an event of this pool that is in transit (popped from the buffer, or
     given back by a listener): it goes to the head of the buffer, nothing else changes -/
@@ -621,7 +623,7 @@ theorem q_rebuffer (h : Bytes → HRes) (i e : Nat) (w : W) (d : Nat → Nat)
 
 theorem j_newEvent (h : Bytes → HRes) (w : W) (k : Nat) (d : Nat → Nat) (c : Cls) (payload : Bytes) (hj : J h w k d) :
     J h { w with events := w.events ++ [{ cls := c, payload := payload }] } k d := by
-  refine ⟨Static.of_shapes (w := w) rfl hj.st, fun j p l hp hl => hj.ls j p l hp hl, ⟨?_, ?_, ?_⟩, ?_⟩
+  refine ⟨Static.of_shapes (w := w) rfl hj.st, fun j p l hp hl => hj.ls j p l hp hl, ⟨?_, ?_, ?_⟩, ?_, hj.rg.congr rfl⟩
   · have := chain_snoc _ _ hj.sv.g
     simpa [sers] using this
   · intro j q hq
@@ -669,7 +671,7 @@ theorem j_notify (h : Bytes → HRes) (c : Cls) (payload : Bytes) (w : W) (k : N
 
 theorem J.congr_d {h : Bytes → HRes} {w : W} {pi : Nat} {d d' : Nat → Nat} (hd : ∀ x, d x = d' x) (hj : J h w pi d) :
     J h w pi d' :=
-  ⟨hj.st, hj.ls, hj.sv, fun pj x => by rw [← hd x]; exact hj.led pj x⟩
+  ⟨hj.st, hj.ls, hj.sv, fun pj x => by rw [← hd x]; exact hj.led pj x, hj.rg⟩
 
 theorem quiet_outs (w : W) (l : List POut) : Quiet w { w with outs := l } := ⟨rfl, rfl, rfl⟩
 theorem quiet_err (w : W) (e : Option Listener.Err) : Quiet w { w with err := e } := ⟨rfl, rfl, rfl⟩
@@ -677,14 +679,14 @@ theorem quiet_err (w : W) (e : Option Listener.Err) : Quiet w { w with err := e 
 theorem j_err (h : Bytes → HRes) (w : W) (pi : Nat) (d : Nat → Nat) (e : Option Listener.Err) (hj : J h w pi d) :
     J h { w with err := e } pi d :=
   ⟨Static.of_shapes (w := w) rfl hj.st, fun j p l hp hl => hj.ls j p l hp hl,
-   (quiet_err w e).sinv hj.sv, ledger_same h w _ pi d rfl rfl (fun _ _ => accepted_congr rfl rfl) hj.led⟩
+   (quiet_err w e).sinv hj.sv, ledger_same h w _ pi d rfl rfl (fun _ _ => accepted_congr rfl rfl) hj.led, hj.rg.congr rfl⟩
 
 /-- one trace entry of a listener of pool `pi` is recorded: an accepted answer takes its event out of transit -/
 theorem j_out (h : Bytes → HRes) (w : W) (pi li : Nat) (o : Listener.Out) (d d' : Nat → Nat)
     (hd : ∀ x, d' x + (if isOkOut h x o = true then 1 else 0) = d x) (hj : J h w pi d) :
     J h { w with outs := w.outs ++ [.lis pi li o] } pi d' := by
   refine ⟨Static.of_shapes (w := w) rfl hj.st, fun j p l hp hl => hj.ls j p l hp hl,
-   (quiet_outs w _).sinv hj.sv, ?_⟩
+   (quiet_outs w _).sinv hj.sv, ?_, hj.rg.congr rfl⟩
   intro pj x
   have hw := hj.led pj x
   have ha : accepted { w with outs := w.outs ++ [.lis pi li o] } pj x = accepted w pj x := accepted_congr rfl rfl
@@ -798,7 +800,7 @@ theorem j_setProc (h : Bytes → HRes) (w : W) (pi li : Nat) (p : PoolSt) (l l' 
     J h (setPool w pi (fun q => { q with procs := q.procs.set li l' })) pi d' := by
   have hq : Quiet w (setPool w pi (fun q => { q with procs := q.procs.set li l' })) :=
     quiet_setPool w pi _ (fun q => by simp [kview])
-  refine ⟨Static.of_shapes hq.shapes hj.st, ?_, hq.sinv hj.sv, ?_⟩
+  refine ⟨Static.of_shapes hq.shapes hj.st, ?_, hq.sinv hj.sv, ?_, hj.rg.congr (rview_setPool w pi _ (fun q => rfl))⟩
   · intro j q m hqj hm
     rw [getElem?_setPool] at hqj
     split at hqj
@@ -877,7 +879,7 @@ theorem j_onListener (h : Bytes → HRes) (pi li : Nat) (f : Listener.S → List
 theorem j_outs_plain (h : Bytes → HRes) (w : W) (pi li k : Nat) (os : List Listener.Out) (d : Nat → Nat)
     (hc : ∀ o ∈ os, clears o = false) (hj : J h w k d) :
     J h { w with outs := w.outs ++ os.map (POut.lis pi li) } k d := by
-  refine ⟨Static.of_shapes (w := w) rfl hj.st, fun j p l hp hl => hj.ls j p l hp hl, (quiet_outs w _).sinv hj.sv, ?_⟩
+  refine ⟨Static.of_shapes (w := w) rfl hj.st, fun j p l hp hl => hj.ls j p l hp hl, (quiet_outs w _).sinv hj.sv, ?_, hj.rg.congr rfl⟩
   intro pj x
   have hw := hj.led pj x
   have ha : accepted { w with outs := w.outs ++ os.map (POut.lis pi li) } pj x = accepted w pj x := accepted_congr rfl rfl
@@ -967,7 +969,7 @@ theorem j_pop (h : Bytes → HRes) (pi e : Nat) (rest : List Nat) (w : W) (p : P
     J h (setPool w pi (fun p => { p with buffer := p.buffer.drop 1 })) pi (fun x => if x = e then 1 else 0) := by
   have hq : Quiet w (setPool w pi (fun p => { p with buffer := p.buffer.drop 1 })) :=
     quiet_setPool w pi _ (fun q => by simp [kview])
-  refine ⟨Static.of_shapes hq.shapes hj.st, ?_, hq.sinv hj.sv, ?_⟩
+  refine ⟨Static.of_shapes hq.shapes hj.st, ?_, hq.sinv hj.sv, ?_, hj.rg.congr (rview_setPool w pi _ (fun q => rfl))⟩
   · refine LAll.of_fixed (fun j => ?_) hj.ls
     rw [getElem?_setPool]
     split
@@ -1026,7 +1028,7 @@ theorem j_dispatch (h : Bytes → HRes) (pi : Nat) : ∀ (fuel : Nat) (w : W), w
 /-! ### every operation, every history -/
 
 theorem j_pool_irrelevant {h : Bytes → HRes} {w : W} (i k : Nat) (hj : J h w i (fun _ => 0)) : J h w k (fun _ => 0) :=
-  ⟨hj.st, hj.ls, hj.sv, ledger_zero h w i k hj.led⟩
+  ⟨hj.st, hj.ls, hj.sv, ledger_zero h w i k hj.led, hj.rg⟩
 
 theorem j_transition (h : Bytes → HRes) (pi k : Nat) (w : W) (hj : J h w k (fun _ => 0)) :
     J h (transition pi w) k (fun _ => 0) ∧ Quiet w (transition pi w) := by
